@@ -237,7 +237,9 @@ def _worker(args):
         mod = __import__(modname, fromlist=["x"])
         res = mod.run_worker(seed, tier, index, nworkers)
         return {"ok": True, "res": res}
-    except Exception:  # harness fault
+    except (KeyboardInterrupt, SystemExit):
+        raise
+    except BaseException:  # noqa - harness fault (BaseException too: a dying pool worker would hang the pool)
         return {"ok": False, "tb": traceback.format_exc()}
 
 
